@@ -136,6 +136,21 @@ def run(ctx):
     out = SP.run_streams(ctx, MASK, monitor, 'recount', [
         ('G-sim', 450, 8000, {}),
     ])
+    import collections
+    st = collections.Counter(out['dist'])
+    for i in range(ctx.budget(80, 1500)):
+        rng = ctx.case_rng('G-sim-preempt-cut', i)
+        recipe = S.gen_preempt(rng, gen='G-sim-preempt-cut')
+        # stop the run at a random point: suspensions still being written out, containers still running
+        recipe['duration'] = rng.randint(2, max(3, int(recipe['duration'] * recipe['tps']))) / recipe['tps']
+        case, run_ = S.drive(recipe, MASK)
+        out['cases'].append(case)
+        SP.stats_of(run_, st)
+        st['runs_ending_with_a_suspension_in_flight'] += bool(run_.ticks and any(p['suspending'] for p in run_.ticks[-1]['pools']))
+        for desc in monitor(run_):
+            out['hits'].append(dict(desc=desc, signature='recount', recipe=recipe, gen='G-sim-preempt-cut'))
+            break
+    out['dist'] = dict(st)
     out['rule'] = ('whole run_simulator runs, all five shipped schedulers, runs of 0..200 ticks incl. runs in which nothing '
                    'arrives, nothing finishes or a priority class is empty; compared: decisions, results, finished '
                    'pipelines per tick and the returned SimulatorStats (integers exactly, float statistics against the '
